@@ -1,6 +1,6 @@
 (* Extraction of the Digital Metadata models (C13, C12, C20). ExtrOcamlBasic only. *)
 From Coq Require Import ZArith List.
-From DRF Require Import Base.Civil Model.Ld80 Model.MdPlace Model.MdStore.
+From DRF Require Import Base.Civil Model.Ld80 Model.MdPlace Model.MdStore Model.MdLive.
 Require Extraction.
 Require Import ExtrOcamlBasic.
 Import ListNotations.
@@ -79,6 +79,40 @@ Definition run_history (args : list Z) : list Z :=
   | _ => [-999]
   end.
 
+(* ---- C20: an interleaved history --------------------------------------------------------------
+   args: n d fc sc nops op*    op = 0 len (k v)* | 1 | 2 r | 3 r s0 s1 ff | 4 r
+   out : per op  0 ok | 1 | 2 0 | 2 1 lo hi | 3 status len (k v)* | 4 *)
+Fixpoint parse_ops (n : nat) (l : list Z) : list op :=
+  match n with
+  | O => []
+  | S n' =>
+      match l with
+      | 0 :: len :: r => let '(ps, rest) := take_pairs (Z.to_nat len) r in OWrite ps :: parse_ops n' rest
+      | 1 :: r => ONewReader :: parse_ops n' r
+      | 2 :: i :: r => OBounds (Z.to_nat i) :: parse_ops n' r
+      | 3 :: i :: s0 :: s1 :: ff :: r => ORead (Z.to_nat i) s0 s1 (negb (ff =? 0)) :: parse_ops n' r
+      | 4 :: i :: r => OLatest (Z.to_nat i) :: parse_ops n' r
+      | _ => []
+      end
+  end.
+
+Definition out_obs (o : obs) : list Z :=
+  match o with
+  | ObsWrite ok => [0; if ok then 1 else 0]
+  | ObsReader => [1]
+  | ObsBounds None => [2; 0]
+  | ObsBounds (Some (lo, hi)) => [2; 1; lo; hi]
+  | ObsRead r => 3 :: out_rres r
+  | ObsNoReader => [4]
+  end.
+
+Definition run_live (args : list Z) : list Z :=
+  match args with
+  | n :: d :: fcs :: scs :: nops :: r =>
+      flat_map out_obs (snd (exec (init (mkCfg n d fcs scs)) (parse_ops (Z.to_nat nops) r)))
+  | _ => [-999]
+  end.
+
 Definition run (f : Z) (args : list Z) : list Z :=
   match f, args with
   (* C13: writer path of a sample *)
@@ -90,6 +124,7 @@ Definition run (f : Z) (args : list Z) : list Z :=
      extracts Coq's [string]) *)
   | 3, [sub] => let '(y, mo, dd, hh, mi, ss) := time_parts sub in [y; mo; dd; hh; mi; ss]
   | 10, _ => run_history args
+  | 20, _ => run_live args
   | _, _ => [-999]
   end.
 
